@@ -47,6 +47,12 @@ def interleave : List Exon → List Intron → List Piece
 def alternate (es : List Exon) (is : List Intron) : Bool :=
   is.length + 1 == es.length || (es.isEmpty && is.isEmpty)
 
+/-- introns are exactly the gaps between consecutive exons -/
+def intronsFit : List Exon → List Intron → Bool
+  | a :: b :: rest, i :: is =>
+    decide (i.start = a.stop) && decide (i.stop = b.start) && decide (i.loc = b.loc) && intronsFit (b :: rest) is
+  | _, _ => true
+
 /-- every exon has non-negative length -/
 def nonNeg (es : List Exon) : Bool := es.all fun e => decide (0 ≤ e.len)
 
@@ -58,6 +64,9 @@ def cover (ps : List Piece) (p : Int) : Nat := (ps.filter (·.has p)).length
 /-- the three regions in the order in which they lie on the transcript -/
 def utrOrder (o : Int) (u5 cds u3 : Piece) : List Piece :=
   if o = -1 then [u3, cds, u5] else [u5, cds, u3]
+
+/-- a `TranscriptFeature` (Offset, Length) as the interval `[Start, End)` -/
+def pieceOf (f : TF) : Piece := (f.start, f.stop)
 
 /-! ### nested positions and orientations: closed forms -/
 
